@@ -132,7 +132,7 @@ class Run:
                 FakeTransport.write(tself, data)
 
             def close(tself):
-                log.append(('tclose',))
+                log.append(('tclose', tself.is_write_paused()))
                 FakeTransport.close(tself)
 
             def _call_protocol(tself, name, *args):
@@ -192,9 +192,13 @@ class Run:
                             self.in_app_send = False
                     elif k == 'in':
                         tok = item[1] if isinstance(item[1], str) else ('msg', int(item[1][1]))
+                        if tok == 'logout' or tok == ('msg', CLOSER):
+                            log.append(('trigger', 'peer-logout' if tok == 'logout' else 'cb-close', tr.is_write_paused()))
                         tr.feed(self.codec.frame(tok, self.rng))
                         last_in = loop.time()
                     elif k == 'close':
+                        log.append(('trigger', 'close', tr.is_write_paused()))
+
                         async def closer():
                             try:
                                 await s.close()
@@ -206,8 +210,10 @@ class Run:
                         harness_tasks.add(id(ut))
                         users.append(ut)
                     elif k == 'iclose':
+                        log.append(('trigger', 'iclose', tr.is_write_paused()))
                         s.initiate_close()
                     elif k == 'logout':
+                        log.append(('trigger', 'logout', tr.is_write_paused()))
                         if role == 'soup-client':
                             s.logout()
                         elif role == 'soup-server':
@@ -215,8 +221,10 @@ class Run:
                         else:
                             s.initiate_close()        # FixSession has no logout call
                     elif k == 'eof':
+                        log.append(('trigger', 'eof', tr.is_write_paused()))
                         s.connection_lost(None)
                     elif k == 'silence':
+                        log.append(('trigger', 'silence', tr.is_write_paused()))
                         end = last_in + 2.2 * sc.get('remote', 100) * HB
                         while not s.is_closed() and loop.time() < end:
                             await asyncio.sleep(HB / 8)
@@ -294,6 +302,60 @@ def oracle(sc, res):
     return out
 
 
+CLOSE_CALLS = {'close': 'close()', 'iclose': 'initiate_close()', 'logout': 'logout() / end_session()', 'eof': 'connection_lost()'}
+
+
+def oracle_close(sc, res):
+    """failures of the C05 statement on one run: every way of ending the session (local close / initiate_close / logout /
+    end_session, peer end-of-stream, a logout frame, a tripped monitor, close awaited from a callback) — whatever the transport's
+    write side is doing at that moment — leaves the session reporting closed, its transport closed once, the close callback run
+    exactly once after the transport close; the close calls themselves return normally."""
+    out = []
+    log = res['log']
+    trig = [e for e in log if e[0] == 'trigger']
+    state = lambda e: ' while the transport had writing paused (peer not reading)' if e[2] else ''
+    for i, e in enumerate(log):
+        if e[0] == 'raised' and e[1] in CLOSE_CALLS:
+            t = [x for x in log[:i] if x[0] == 'trigger' and x[1] == e[1]]
+            out.append(f'{CLOSE_CALLS[e[1]]} raised {e[2]}' + (state(t[-1]) if t else ''))
+        if e[0] == 'ret' and e[1] == 'close' and e[2] != 'ok':
+            out.append(f'awaited close() ended with {e[2]} instead of returning')
+    if any(e[1] == 'close' for e in trig) and not any(e[0] == 'ret' and e[1] == 'close' for e in log):
+        out.append(f'awaited close() had not returned {SETTLE} heartbeat intervals after the script')
+    if not trig and not res.get('closed'):
+        return out
+    if not res.get('closed'):
+        out.append(f'close trigger {trig[0][1]} occurred{state(trig[0])} but the session does not report closed '
+                   f'{SETTLE} heartbeat intervals after the script')
+        return out
+    if res['tcloses'] < 1:
+        out.append('session reports closed but the transport was never closed')
+    elif res['tcloses'] > 1:
+        out.append(f'transport closed {res["tcloses"]} times')
+    has_cb = sc.get('has_cb', True) and sc['role'] != 'soup-server'      # (a server session's close callback is its own close())
+    ent = [i for i, e in enumerate(log) if e[0] == 'cbEnter']
+    ext = [i for i, e in enumerate(log) if e[0] == 'cbExit']
+    if has_cb:
+        if len(ent) != 1 or len(ext) != 1:
+            out.append(f'close callback entered {len(ent)} times and completed {len(ext)} times (expected exactly once)')
+        else:
+            tc = [i for i, e in enumerate(log) if e[0] == 'tclose']
+            if not tc or tc[0] > ent[0]:
+                out.append('close callback entered before the transport was closed')
+            late = [e for e in log[ent[0]:] if e[0] == 'msgEnter']
+            if late:
+                out.append(f'message callback for {late[0][1]} started after the close callback was entered')
+    elif ent or ext:
+        out.append('close callback observed although none is configured')
+    return out
+
+
+ORACLES = {'C05': oracle_close, 'C06': oracle}
+JUDGED = {'C05': 'every close trigger ends the session completely and once — reports closed, transport closed once, close callback exactly '
+                 'once after it; close(), initiate_close(), logout(), end_session() never raise, whatever the write side of the transport is doing',
+          'C06': 'no write, no callback, no new task after the close completed; all tasks finished, no unretrieved exception'}
+
+
 # ------------------------------------------------------------------ generators
 ROLES = ('soup-client', 'soup-server', 'fix-client')
 TRIGGERS = ('close', 'iclose', 'logout', 'eof', 'peer-logout', 'silence', 'cb-close')
@@ -366,7 +428,8 @@ def random_scenario(rng):
 
 
 # ------------------------------------------------------------------ check entry points
-def shrink(sc, key):
+def shrink(sc, key, orc=None):
+    orc = orc or oracle
     cur = dict(sc, script=list(sc['script']))
     changed, tries = True, 0
     while changed and tries < 40:
@@ -375,7 +438,7 @@ def shrink(sc, key):
             cand = dict(cur, script=cur['script'][:i] + cur['script'][i + 1:])
             tries += 1
             try:
-                v = oracle(cand, run_scenario(cand))
+                v = orc(cand, run_scenario(cand))
             except Exception:       # noqa
                 continue
             if any(x[:40] == key for x in v):
@@ -388,7 +451,8 @@ def describe(sc):
     return f"{sc['role']} hw={sc.get('hw')} remote={sc.get('remote')} cb={sc.get('cb')} lost={sc.get('lost')} {json.dumps(sc['script'])}"
 
 
-def run_flow(ctx, prop='C06'):
+def run_flow(ctx, prop='C06', n_sample=350, n_random=250):
+    orc = ORACLES[prop]
     rng = random.Random(ctx.rng.random())
     quick = ctx.tier == 'quick'
     sys_all = all_scenarios()
@@ -399,10 +463,10 @@ def run_flow(ctx, prop='C06'):
         for sc in sys_all:
             by.setdefault((sc['role'], sc['hw'], sc['shape'][0], sc['shape'][1]), []).append(sc)
         pick = [rng.choice(v) for v in by.values()]
-        cases += [('systematic', c) for c in pick + rng.sample(sys_all, 350)]
+        cases += [('systematic', c) for c in pick + rng.sample(sys_all, n_sample)]
     else:
         cases += [('systematic', c) for c in sys_all]
-    cases += [('random', random_scenario(rng)) for _ in range(250 if quick else 6000)]
+    cases += [('random', random_scenario(rng)) for _ in range(n_random if quick else 6000)]
     for tag, sc in cases:
         rep = {'kind': 'flow', 'flow_scenario': sc}
         try:
@@ -421,14 +485,20 @@ def run_flow(ctx, prop='C06'):
             ctx.count('flow:paused-before-close' if tc and i_p < tc[0] else 'flow:paused')
             if tc and any(e == ('flow', 'resume_writing') for e in log[tc[0]:]) and any(e == ('w', 'hb') for e in log[i_p + 1:tc[0]]):
                 ctx.count('flow:pause-heartbeat-close-resume')
-        v = oracle(sc, res)
+        for e in log:
+            if e[0] == 'trigger':
+                ctx.count(f'flow:trigger-{e[1]}' + ('-while-write-paused' if e[2] else ''))
+                ctx.count(f'flow:{sc["role"]}:trigger' + ('-while-write-paused' if e[2] else ''))
+            elif e[0] == 'tclose' and len(e) > 1 and e[1]:
+                ctx.count('flow:transport-closed-while-write-paused')
+        v = orc(sc, res)
         if v:
-            small = shrink(sc, v[0][:40]) if len(ctx.violations) < 3 else sc
+            small = shrink(sc, v[0][:40], orc) if len(ctx.violations) < 3 else sc
             ctx.violation(v[0] + '  [transport flow-control scenario]', {'kind': 'flow', 'flow_scenario': small})
     ctx.notes.append('transport write flow control (harness/flow_scen.py): the peer stops reading, the transport buffers and calls pause_writing(), '
                      'heartbeats fall due, the session closes through each of 7 triggers, the peer reads again before / after / partly / never '
                      '(resume_writing() and connection_lost(None) after the close, as asyncio delivers them); judged by the property oracle only '
-                     '(no write, no callback, no new task after the close completed; all tasks finished, no unretrieved exception)')
+                     '(' + JUDGED[prop] + ')')
 
 
 def load_corpus(prop):
@@ -450,6 +520,6 @@ def replay_flow(ctx, prop, rep):
     print('scenario:', describe(sc))
     print('log     :', [e[:2] for e in res['log']])
     print('closed', res['closed'], 'alive', res['alive'], 'task exceptions', res['task_exceptions'], res['loop_exceptions'])
-    for v in oracle(sc, res):
+    for v in ORACLES[prop](sc, res):
         print('ORACLE:', v)
         ctx.violation(v + '  [transport flow-control scenario]', dict(rep))
